@@ -47,7 +47,7 @@ type World struct {
 	fwd      map[*ssa.Function]*fwdInfo
 	phiEnv   map[*ssa.Phi]ssa.Value // path context while enumerating paths
 	phiBusy  map[*ssa.Phi]bool
-	memEnv   map[*ssa.Alloc]ssa.Value // last value stored to a multi-store local on the current path
+	memEnv   map[*ssa.Alloc]ssa.Value     // last value stored to a multi-store local on the current path
 	paramEnv map[*ssa.Parameter]ssa.Value // parameters of inlined callees → caller values
 	callEnv  map[*ssa.Call][]ssa.Value    // inlined calls → the values returned on the current path
 	noInline func(*ssa.Function) bool     // rule anchors (role functions) are never inlined
